@@ -12,7 +12,8 @@
    The state conditions of that theorem are established and kept by every history that creates properties, attaches plain observers,
    binds fresh properties through the evaluator, assigns to inputs and calls evaluateAll (coq/PropGrowLazy.v:
    C06_state_conditions_reachable, C06_reachable_one_pass).
-   The same holds for histories that also reset() bound properties (coq/PropGrowLazyMore.v: C06_network_with_resets_one_pass), and a
+   The same holds for histories that also reset() bound properties and destroy properties nobody reads (coq/PropGrowLazyMore.v:
+   C06_network_with_resets_one_pass), and a
    reset binding is dead and no longer in the registry that evaluateAll iterates (C06_reset_binding_never_evaluated_again); it owns
    no subscription any more (C07_reset_disconnects, C10_no_orphan_subscription).
    The networks may use SEVERAL evaluators (bindings and evaluateAll calls through any of them): the theorems speak about the bindings
@@ -20,7 +21,7 @@
    PARTIAL: mixed worlds (immediate and evaluator-driven bindings together, acting observers, replacement and destruction) are covered by the extracted checker PropCheck.check_c06_after_evalall on every evaluateAll of every generated
    history and by correspondence. *)
 From KDB Require Import Util PropDefs PropProofs.
-From KDB Require PropAbs PropAbsLazy PropCheck PropSim PropSimLazy PropGrowLazy PropGrowLazyMore PropReg.
+From KDB Require PropAbs PropAbsLazy PropCheck PropSim PropSimLazy PropGrowLazy PropGrowMore PropGrowLazyMore PropReg.
 
 (* a notification reaching a node of an evaluator-driven binding only sets dirty flags *)
 Theorem C06_notification_only_marks :
@@ -123,7 +124,8 @@ Theorem C06_reachable_one_pass :
 Proof. exact PropGrowLazy.lazy_reachable_one_pass. Qed.
 Print Assumptions C06_reachable_one_pass.
 
-(* ... and for histories in which bound properties are also reset(): lazy_run2_ok = the growing-network operations plus reset *)
+(* ... and for histories in which bound properties are also reset() and properties that no binding reads (bound through an evaluator
+   or not) are destroyed: lazy_run2_ok = the growing-network operations plus reset plus destruction of unread properties *)
 Theorem C06_network_with_resets_one_pass :
   forall fn rtl ev, ev <> 0 -> forall f ops e w',
     PropGrowLazyMore.lazy_run2_ok fn rtl f world0 ops ->
@@ -144,6 +146,19 @@ Theorem C06_reset_binding_never_evaluated_again :
     get_bind w' b = None /\ forall st, nth_error (w_evps w') ev = Some st -> ~ In p (PropSimLazy.regs_of w' (ep_registry st)).
 Proof. exact PropGrowLazyMore.reset_leaves_registry. Qed.
 Print Assumptions C06_reset_binding_never_evaluated_again.
+
+(* non-vacuity of the destruction case: the end of a chain (bound through the evaluator) is destroyed; the rest is brought up to date
+   by one evaluateAll; destroying property 1 while 2 reads it would not be such a history *)
+Example C06_destruction_example :
+  let fn := fun (f : nat) (l : list Z) => Some (fold_right Z.add (Z.of_nat f) l) in
+  let ops := [PNew 0 1%Z; BevNew 0; PBind 1 (EOp1 1 (EProp 0)) (MEvaluator 0); PBind 2 (EOp1 2 (EProp 1)) (MEvaluator 0);
+              PBind 3 (EOp1 3 (EProp 2)) (MEvaluator 0); PDel 3; PSet 0 7%Z WSet] in
+  PropGrowLazyMore.lazy_run2_ok fn true 7 world0 ops /\
+  PropGrowMore.no_reader_b (run fn true 8 (firstn 5 ops)) 1 = false /\
+  map (fun e => match e with EvVal v => v | _ => None end)
+      (filter (fun e => match e with EvVal _ => true | _ => false end) (w_trace (run fn true 8 (ops ++ [BevEvalAll 0; PGet 1; PGet 2]))))
+  = [Some 10%Z; Some 8%Z].
+Proof. split; [vm_compute; repeat split; reflexivity|split; vm_compute; reflexivity]. Qed.
 
 (* non-vacuity: a chain of three, the middle one reset, then written directly; one evaluateAll brings the end of the chain up to date *)
 Example C06_reset_example :
